@@ -133,7 +133,7 @@ func FieldOwnerName(t types.Type, idx int) string {
 	for typeArgsRe.MatchString(name) {
 		name = typeArgsRe.ReplaceAllString(name, "")
 	}
-	return name + "." + st.Field(idx).Name()
+	return name + "." + canonFieldName(name, st.Field(idx).Name())
 }
 
 // FieldVar returns the *types.Var of the idx-th field of (pointer to) t.
